@@ -23,7 +23,7 @@ const char *C01_CLASSES[] = {"launch-count", "not-all-terminated", "done-count",
                              "source-buffer-shared", nullptr};
 const char *C12_CLASSES[] = {"crash", "abort", "sanitizer", "hang", "bad-exit",
                              "missing-output", "uninitialised-dependent",
-                             nullptr};
+                             "memcheck", nullptr};
 const char *C13_CLASSES[] = {"output-differs", nullptr};
 const char *C03_CLASSES[] = {"handover", "neighbour-table", "copy-structure",
                              "estimator-mismatch", "outcome-mismatch", "copy-state",
@@ -774,6 +774,7 @@ public:
       L.on_iteration_end = [](Ledger &l, int iloop, const void *const *) {
         reference_check(l, iloop);
       };
+    valgrind_mark();
     run_begin(c.sched, &L);
     bool finished = guarded([&]() {
       TaskBasedIonizationSimulation sim(c.threads, pf, c.task_plot,
@@ -784,7 +785,13 @@ public:
     RunStats rs = run_end();
 
     std::string vclass, message;
-    if (L.failed) {
+    std::string vgtext;
+    const long vgerrors = valgrind_report(vgtext);
+    if (vgerrors > 0) {
+      vclass = "memcheck";
+      message = sfmt("memcheck reported %ld error(s) during the run; first: ",
+                     vgerrors) + vgtext;
+    } else if (L.failed) {
       vclass = L.violation.vclass;
       message = L.violation.message;
     } else if (!finished && rs.inconclusive) {
@@ -962,6 +969,17 @@ public:
           "with 0x00 and with 0xA5 (M_PERTURB), other rdtsc values and other "
           "heap layout; any difference in the snapshots or the event log "
           "means a decision was taken on uninitialised memory";
+    } else if (prop == "C12" && mode == "valgrind") {
+      cov["rule"] =
+          "memcheck part of C12 (task-based ionization mode): the whole "
+          "check - workers, re-run children, replay processes - runs under "
+          "valgrind memcheck (fiber stacks registered, pooled stacks marked "
+          "undefined, no hostile fill); after every simulated run the engine "
+          "asks memcheck whether it reported anything during that run "
+          "(VALGRIND_COUNT_ERRORS): a conditional jump or system call on "
+          "uninitialised memory, an invalid read/write or free is a "
+          "violation, identified by the first report's innermost frames. "
+          "Same generated problems as the sanitizer part";
     } else if (prop == "C12") {
       cov["rule"] =
           "sanitizer part of C12 (task-based ionization mode): whole runs "
